@@ -28,7 +28,7 @@ theorem create_read_failure_surfaces_bytes (a : CreateArgs) (data sched : List N
 /-! non-vacuity: without the failure the same stream yields a result -/
 example : (createFromRd Sfs.inflate3 decodeContainer {} (Rd.fresh (encodeContainer 7 ["s0"] ["1"] [("1", 5, [.genotype 1])] .vcf) [1, 2, 3] none)).isSome = true := by
   have hwf : WfCallSet ["s0"] ["1"] [("1", 5, [.genotype 1])] := by
-    refine ⟨by decide, ?_, ?_, by decide, ?_⟩
+    refine ⟨by decide, ?_, by decide, ?_, by decide, ?_⟩
     · simp only [List.mem_cons, List.not_mem_nil, or_false]
       rintro c rfl; unfold WfName; decide
     · simp only [List.mem_cons, List.not_mem_nil, or_false]
